@@ -527,9 +527,11 @@ func runC09(out *vlib.Out, sc *c09Scenario, prefixSched []int) c09Result {
 			d = append(d, fmt.Sprintf("%s,%s,%d,%s,%d", ph, vlib.Hex([]byte(id)), int(r.Transport), vlib.B(r.Valid), r.regCount))
 		}
 	}
-	for _, to := range rd.decoysTimeouts {
+	for key, to := range rd.decoysTimeouts {
 		v := vnow - int64(time.Since(to.registrationTime)/time.Second) // exact while the run is faster than c09SlowLimit
-		t = append(t, fmt.Sprintf("%s,%s,%d,%s", to.decoy, vlib.Hex([]byte(to.identifier)), v, vlib.B(to.status == regStatusUsed)))
+		// (phantom, identifier) from the registry's own key (phantom is IP text, free of '|'), not from the record's fields
+		toPh, toID, _ := strings.Cut(key, "|")
+		t = append(t, fmt.Sprintf("%s,%s,%d,%s", toPh, vlib.Hex([]byte(toID)), v, vlib.B(to.status == regStatusUsed)))
 	}
 	sort.Strings(d)
 	sort.Strings(t)
